@@ -1131,6 +1131,19 @@ fn client_data_cases() -> Vec<Value> {
             }
         }
     }
+    // unknown members of which one carries the name of a member the extra data also produces
+    // (what the library does with the doubled name is not judged): the OTHER unknown members keep
+    // their order, wherever the shared name stands among four or five of them
+    for (e, shared) in [(1u8, "androidPackageName"), (1, "zeta"), (2, "payment"), (2, "alpha")] {
+        for n in [4usize, 5] {
+            for at in 0..n {
+                let names = ["topOrigin", "zzz", "aaa", "mid", "b"];
+                let mut unk: Vec<(String, Value)> = names[..n - 1].iter().enumerate().map(|(i, k)| (k.to_string(), json!({"i": i}))).collect();
+                unk.insert(at, (shared.to_string(), json!("other")));
+                v.push(json!({"client_data": {"extra": e, "unknown": unk, "cross": null, "ty": "webauthn.get", "overlap": shared}}));
+            }
+        }
+    }
     v
 }
 fn client_data_one(case: &Value) -> Vec<Finding> {
@@ -1166,6 +1179,15 @@ fn client_data_one(case: &Value) -> Vec<Finding> {
         _ => {}
     }
     want.extend(unk.iter().map(|(k, _)| k.clone()));
+    if let Some(shared) = c["overlap"].as_str() {
+        // a name on both sides: compare the order of everything else
+        let rest = |ks: &[String]| -> Vec<String> { ks.iter().filter(|k| k.as_str() != shared).cloned().collect() };
+        let (got, wanted) = (rest(&keys), rest(&want));
+        if got != wanted {
+            fs.push(Finding::new("clientdata/kind=member-order", format!("members other than the doubled {shared:?}: {got:?}, expected {wanted:?} in {text}"), case.clone()));
+        }
+        return fs;
+    }
     if keys != want {
         let mut sorted = keys.clone();
         sorted.sort();
